@@ -39,6 +39,8 @@ structure Watcher where
   cb : Nat
   /-- what is watched: 0 = the parameter's value, k > 0 = the k-th watchable Parameter attribute (slot) -/
   what : Nat := 0
+  /-- registered with `watch_values`: the callback is called with keyword arguments `name=new` -/
+  kw : Bool := false
   deriving Repr, DecidableEq
 
 /-- shorthand for examples: a value watcher whose callback identity is its id -/
@@ -54,7 +56,7 @@ structure Ev where
   what : Nat := 0
   deriving Repr, DecidableEq
 
-inductive EvType | set | changed | triggered
+inductive EvType | set | changed | triggered | kw   -- `kw`: a `watch_values` callback only sees name=new
   deriving Repr, DecidableEq
 
 /-- an event as handed to a callback -/
@@ -164,6 +166,11 @@ def evType (trig : Bool) (wt : Watcher) : EvType :=
 
 def typed (trig : Bool) (wt : Watcher) (e : Ev) : TEv :=
   { name := e.name, old := e.old, new := e.new, type := evType trig wt, what := e.what }
+
+/-- what the callback is actually handed (`_execute_watcher`): the events themselves in 'args' mode,
+`{event.name: event.new}` in 'kwargs' mode — rendered as events whose old is the new value -/
+def shown (wt : Watcher) (evs : List TEv) : List TEv :=
+  if wt.kw then evs.map (fun e => { e with old := e.new, type := .kw }) else evs
 
 /-- the last queued event for a name (`OrderedDict([((name, what), event) …])` keeps the last) -/
 def lastFor (dict : List Ev) (name : Nat) (what : Nat := 0) : Option Ev :=
@@ -361,7 +368,7 @@ def run (c : Cfg) : Nat → Call → World → Res × World × List Item
       let saved := w.batch
       let w0 := { w with batch := wt.queued || w.batch, ncalls := w.ncalls + 1 }
       let (r1, w1, o1) := run c f (.stmts (c.body wt.body)) w0
-      (r1, { w1 with batch := saved }, [.call wt.cb evs viaFlush w.vals o1 r1])
+      (r1, { w1 with batch := saved }, [.call wt.cb (shown wt evs) viaFlush w.vals o1 r1])
     | .flush =>
       if w.events.isEmpty then (.ok, w, [])
       else
